@@ -26,7 +26,7 @@ def write_lammps(d, matrix, symbols, frames, numeric_types=False):
         for k, fr in enumerate(frames):
             f.write(f'{len(symbols)}\nframe {k}\n')
             for sym, fc in zip(symbols, fr):
-                c = lat2.get_cartesian_coords(np.array(fc) % 1.0)
+                c = lat2.get_cartesian_coords(np.array(fc))
                 name = str(types.index(sym) + 1) if numeric_types else sym
                 f.write('%s %.6f %.6f %.6f\n' % (name, *c))
     return {'coords_file': coords_file, 'data_file': data_file, 'types': {str(i + 1): t for i, t in enumerate(types)}}
